@@ -113,12 +113,21 @@ package tree
 //@   loop 1 invariant onlyRunningOrDefault == forall(j, 0, $n, !intentOwned(lv.les[j]))
 //@   loop 0 invariant forall(j, 0, $n, intentOwned(lv.les[j]) ==> lv.les[j].Delete && !lv.les[j].DeleteOnlyIntended)
 
+// what the device runs does not outlive the intents that put it there: when intents hold the leaf and every one of their
+// values is being removed from the device, only the schema default is left; otherwise any value not marked remains
+//@ pred intentStays(le) = intentOwned(le) && (!le.Delete || le.DeleteOnlyIntended)
 //@ func (*LeafVariants).remainsToExist
 //@   props C01 C04
 //@   requires lvOK(lv)
 //@   modifies nothing
-//@   ensures spec: result == exists(i, 0, len(lv.les), !lv.les[i].Delete)
-//@   loop 0 invariant forall(j, 0, $n, lv.les[j].Delete)
+//@   ensures spec: result == ite(exists(i, 0, len(lv.les), intentOwned(lv.les[i])) && !exists(i, 0, len(lv.les), intentStays(lv.les[i])),
+//@            exists(i, 0, len(lv.les), lv.les[i].Update.owner == DefaultsIntentName && !lv.les[i].Delete),
+//@            exists(i, 0, len(lv.les), intentStays(lv.les[i]) || (!intentOwned(lv.les[i]) && !lv.les[i].Delete)))
+//@   ensures a_leaf_every_intent_gives_up_does_not_remain_through_running [C04]: exists(i, 0, len(lv.les), intentOwned(lv.les[i])) && !exists(i, 0, len(lv.les), intentStays(lv.les[i])) &&
+//@            !exists(i, 0, len(lv.les), lv.les[i].Update.owner == DefaultsIntentName) ==> !result
+//@   loop 0 invariant intentOwned == exists(j, 0, $n, intentOwned(lv.les[j])) && intentRemains == exists(j, 0, $n, intentStays(lv.les[j]))
+//@   loop 0 invariant runningRemains == exists(j, 0, $n, lv.les[j].Update.owner == RunningIntentName && !lv.les[j].Delete)
+//@   loop 0 invariant defaultRemains == exists(j, 0, $n, lv.les[j].Update.owner == DefaultsIntentName && !lv.les[j].Delete)
 
 //@ func (*LeafVariants).GetHighestPrecedenceValue
 //@   props C01 C08
